@@ -110,6 +110,13 @@ func TestC13(t *testing.T) {
 		}
 	})
 
+	// inter-pass state: atoms that leave a tag / end tag / comment unfinished in one start context,
+	// break out of a value in another, and black tags closed directly by '>'
+	leak := []string{"'>", "\">", "`>", "/>", ">", "</a x=", "</a ", "</i", "</>", "</a x='", "</a x=\"", "<script>", "<xss>", "<!--", "//-->", "'", "\"", " ", "x=", "<a "}
+	Ll := pick(5, 6)
+	p = c.rec.NewPart("pass_leak_atoms_exhaustive", fmt.Sprintf("contexts relation on every concatenation of 1..%d of %d atoms that end one pass in an unfinished construct and hide a black tag from the others", Ll, len(leak)), false, true, "")
+	c.EnumSeq(p, leak, "", 1, Ll, func(w *Worker, s string) { w.Judge(ctxCase(s)) })
+
 	hb := htmlBoundaryInputs()
 	p = c.rec.NewPart("boundary_inputs", "length-, count- and code-point boundary inputs (see C07): contexts relation, and prefix relation with 4 prefixes", false, true, "")
 	c.ParRange(p, int64(len(hb)), func(w *Worker, i int64) {
